@@ -618,9 +618,22 @@ func runBinaryCase(bin, dir string, idx int, c ecaseJSON) (string, runReport) {
 	defer up.ln.Close()
 	upAddr := up.ln.Addr().String()
 	a, b := genSecretSets(c)
-	pp, ap := freePort(), freePort()
-	oa := runBinary(bin, cdir, c, a, upAddr, pp, ap, "A")
-	ob := runBinary(bin, cdir, c, b, upAddr, pp, ap, "B")
+	// the listening ports are picked by binding :0 and closing; another process may take one in between,
+	// so a run that does not come up is repeated on fresh ports
+	var pp, ap string
+	var oa, ob runOutput
+	for attempt := 0; attempt < 4; attempt++ {
+		pp, ap = freePort(), freePort()
+		oa = runBinary(bin, cdir, c, a, upAddr, pp, ap, "A")
+		if c.Class == "run" && !oa.started {
+			continue
+		}
+		ob = runBinary(bin, cdir, c, b, upAddr, pp, ap, "B")
+		if c.Class == "run" && !ob.started {
+			continue
+		}
+		break
+	}
 	rep.Ran = (oa.started && ob.started) || (c.Class == "rejected" && !oa.started && !ob.started)
 	if !rep.Ran {
 		rep.Err = fmt.Sprintf("started A=%v B=%v exit A=%q B=%q output A: %.400s", oa.started, ob.started, oa.exitErr, ob.exitErr, oa.proc)
